@@ -8,9 +8,17 @@
    the JSON events the collector observed — function-call items, argument deltas, done events in any number,
    order and interleaving, with missing / empty / duplicate ids).
    A "function call the provider emits" is a call id completed in one response (iteration i <-> answer i).
-   FIXED = /repo after the `fix:` commits for S16 and S19; UNFIXED = before. *)
+   FIXED = /repo after the `fix:` commits for S16 and S19; UNFIXED = before.
+
+   Last section: the same from the BYTES of the answers.  `run_b A ob g valid tool prompt init bodies` feeds the loop
+   from C15's model of the provider stream path (Model/Sse.v + Model/SseJson.v: UTF-8 carry-over, SseDecoder push /
+   finish, cut after [DONE], EventFrameMapper) extended by the collector feed of OpenResponsesSsePipe
+   (Model/ToolLoopSse.v); "a call the provider emitted" is then a call in a provider-event FRAME of the session
+   stream (Sse.frames_of = what C15 proves about), independent of the collector. *)
 From Coq Require Import Strings.String Strings.Ascii.
 From RipV Require Import Base.Prelude Base.Json Model.ToolLoop Proofs.ToolLoopProofs.
+From RipV Require Import Base.Utf8 Model.ToolLoopSse Proofs.ToolLoopSseProofs.
+From RipV Require Model.Sse Model.SseJson.
 From Coq Require Import Permutation Sorted.
 
 (* ---- a tool excluded by the configured tool choice is never executed ---- *)
@@ -308,3 +316,100 @@ Example c16_example_long_call_id :
   nlen (lit ex_long_id) = 70 /\ length (sent ex_long_id_run) = 1%nat /\ res_reason ex_long_id_run = InvalidRequest /\
   match res_rejected ex_long_id_run with Some q => out_ids (items_of q) = [lit ex_long_id] | None => False end.
 Proof. exact ex_long_id_shape. Qed.
+
+(* ================= from the body bytes: OpenResponsesSsePipe feeds the collector what it logs as frames ========== *)
+
+(* the collector of a request has observed exactly the payloads of the event frames the pipe emitted for this answer,
+   in order — whatever the chunking, incl. the events that only pipe.finish() hands out when the stream ends without
+   [DONE] (classify = any classification of payloads, off = any seq offset) *)
+Theorem c16_collector_sees_the_frames :
+  forall (classify : option str -> str -> Sse.cls) (off : N) (cs : list (list N)),
+  seen_of classify OBS_BOTH off cs = frame_data (Sse.frames_of classify Sse.FIXED off cs).
+Proof. exact seen_is_frame_data. Qed.
+Print Assumptions c16_collector_sees_the_frames.
+
+(* ... i.e. the events of the body by the chunking-free specification of C15: lossy UTF-8 decoding of the whole body,
+   the field rules folded over ALL its lines (an unterminated non-empty last line counts: finish()), cut after the
+   first [DONE] *)
+Theorem c16_collector_sees_the_body_events :
+  forall (classify : option str -> str -> Sse.cls) (off : N) (cs : list (list N)),
+  seen_of classify OBS_BOTH off cs
+  = evs_data (Sse.upto_done (Sse.events_spec classify (lossy_text (concat cs)))).
+Proof. exact seen_is_body_events. Qed.
+Print Assumptions c16_collector_sees_the_body_events.
+
+(* whichever of the two places feed the collector, the frames are C15's frames *)
+Theorem c16_frames_do_not_depend_on_the_collector :
+  forall (classify : option str -> str -> Sse.cls) (off : N) (ob : obs_flags) (cs : list (list N)),
+  frames_c classify ob off cs = Sse.frames_of classify Sse.FIXED off cs.
+Proof. exact frames_c_is_frames_of. Qed.
+Print Assumptions c16_frames_do_not_depend_on_the_collector.
+
+(* c16_emitted_call_answered from the BODY: a function call that appears in a provider-event frame of answer i
+   (status "event", data = a well-formed output_item.done of a function_call item) is among the calls iteration i
+   drains whenever the run goes on to a next request — where it is answered exactly once, by call id, in output
+   order (c16_answered_next_request / c16_answered_once_by_call_id apply to run_b as it is a `run`) *)
+Theorem c16_emitted_call_answered_from_body :
+  forall (A : SseJson.absfns) g valid tool prompt init (bodies : list bround) pre it1 it2 post b
+         (off s : N) ev raw d errs rerrs cid,
+  res_iters (run_b A OBS_BOTH g valid tool prompt init bodies) = pre ++ it1 :: it2 :: post ->
+  nth_error bodies (length pre) = Some b ->
+  In (Sse.FProv s 2 ev raw (Some d) errs rerrs) (Sse.frames_of (SseJson.jclassify A) Sse.FIXED off (bb_chunks b)) ->
+  wf_done d cid ->
+  In cid (map c_id (it_calls it1)).
+Proof. exact emitted_call_answered_body. Qed.
+Print Assumptions c16_emitted_call_answered_from_body.
+
+(* a run that ends "completed": no frame of its last answer carries a well-formed call (a call in the frames cannot
+   be dropped silently) *)
+Theorem c16_completed_no_call_in_last_frames :
+  forall (A : SseJson.absfns) g valid tool prompt init (bodies : list bround) b (off s : N) ev raw d errs rerrs cid,
+  res_reason (run_b A OBS_BOTH g valid tool prompt init bodies) = Completed ->
+  nth_error bodies (pred (length (res_iters (run_b A OBS_BOTH g valid tool prompt init bodies)))) = Some b ->
+  In (Sse.FProv s 2 ev raw (Some d) errs rerrs) (Sse.frames_of (SseJson.jclassify A) Sse.FIXED off (bb_chunks b)) ->
+  wf_done d cid -> False.
+Proof. exact completed_no_call_in_last_frames. Qed.
+Print Assumptions c16_completed_no_call_in_last_frames.
+
+(* a pipe whose finish() logs the flushed events without feeding the collector (OBS_PUSH_ONLY) violates both: the
+   CRLF body cut between the CR and the LF of its final blank line has the call in frame 1 of answer 0, nothing is
+   drained and the run "completes" after one request *)
+Theorem c16_finish_not_observed_refuted :
+  exists A g valid tool prompt init bodies b fr d cid,
+    nth_error bodies 0 = Some b /\
+    In fr (frames_c (SseJson.jclassify A) OBS_PUSH_ONLY 0 (bb_chunks b)) /\
+    fr = Sse.FProv 1 2 None None (Some d) [] [] /\ wf_done d cid /\
+    res_reason (run_b A OBS_PUSH_ONLY g valid tool prompt init bodies) = Completed /\
+    length (res_iters (run_b A OBS_PUSH_ONLY g valid tool prompt init bodies)) = 1%nat.
+Proof. exact finish_not_observed_refuted. Qed.
+Print Assumptions c16_finish_not_observed_refuted.
+
+(* ---- which tails carry a call (the hypotheses above are satisfiable) ---- *)
+(* `...}\r\n\r`, no [DONE]: the last event is handed out by finish(); it is frame 1 and the call is drained *)
+Example c16_example_crlf_cut_tail :
+  nth_error (Sse.frames_of (SseJson.jclassify A0) Sse.FIXED 0 [body_crlf_cut]) 1 = Some tail_call_frame
+  /\ drained_ids OBS_BOTH body_crlf_cut = [lit "call_1"].
+Proof. exact ex_crlf_cut. Qed.
+Example c16_example_tail_call_wf : wf_done tail_call_data (lit "call_1").
+Proof. exact tail_call_wf. Qed.
+(* the whole run: executed, answered by request 1 *)
+Example c16_example_tail_run :
+  res_reason (tail_run OBS_BOTH) = Completed /\
+  map (fun it => (q_kind (it_req it), out_ids (items_of (it_req it)), map c_id (it_calls it))) (res_iters (tail_run OBS_BOTH))
+  = [(0, [], [lit "call_1"]); (3, [lit "call_1"], [])].
+Proof. exact ex_tail_run_answered. Qed.
+(* LF line end followed by a lone CR; [DONE] itself in the unterminated tail: dispatched as well *)
+Example c16_example_lf_cr_tail : has_call_frame body_lf_cr = true /\ drained_ids OBS_BOTH body_lf_cr = [lit "call_1"].
+Proof. exact ex_lf_cr. Qed.
+Example c16_example_done_in_tail :
+  has_call_frame body_done_in_tail = true /\ drained_ids OBS_BOTH body_done_in_tail = [lit "call_1"].
+Proof. exact ex_done_in_tail. Qed.
+(* NOT dispatched — no frame, nothing to answer: an LF body missing its final blank line, a last line without any
+   line end, a call after [DONE] *)
+Example c16_example_lf_noblank_tail : has_call_frame body_lf_noblank = false /\ drained_ids OBS_BOTH body_lf_noblank = [].
+Proof. exact ex_lf_noblank. Qed.
+Example c16_example_lf_noeol_tail : has_call_frame body_lf_noeol = false /\ drained_ids OBS_BOTH body_lf_noeol = [].
+Proof. exact ex_lf_noeol. Qed.
+Example c16_example_call_after_done :
+  has_call_frame body_call_after_done = false /\ drained_ids OBS_BOTH body_call_after_done = [].
+Proof. exact ex_call_after_done. Qed.
